@@ -56,6 +56,15 @@ func PropagateChangesFromUpstreamRepository(downstreamRepo, upstreamRepo *gitint
 			return err
 		}
 
+		if upstreamPath := detail.GetUpstreamPath(); upstreamPath != "" {
+			// Only the contents of the upstream path are propagated, so that
+			// is what the downstream path must be compared against
+			upstreamTreeID, err = upstreamRepo.GetPathIDInTree(upstreamTreeID, upstreamPath)
+			if err != nil {
+				return err
+			}
+		}
+
 		if !currentPathTreeID.IsZero() && currentPathTreeID.Equal(upstreamTreeID.Bytes()) {
 			// Nothing to do
 			continue
